@@ -92,6 +92,13 @@ class IdempotencyStore(Entity):
             raise ValueError(f"max_entries must be >= 1, got {max_entries}")
         if cleanup_interval <= 0:
             raise ValueError(f"cleanup_interval must be > 0, got {cleanup_interval}")
+        # Simulation time is integer nanoseconds: a positive interval below one
+        # nanosecond truncates to zero, and the cleanup daemon would re-schedule
+        # itself at the current instant forever (the clock never advances).
+        if Duration.from_seconds(cleanup_interval).nanoseconds <= 0:
+            raise ValueError(
+                f"cleanup_interval must be at least one nanosecond, got {cleanup_interval}"
+            )
 
         self._target = target
         self._key_extractor = key_extractor
